@@ -555,7 +555,17 @@ pub fn worker(case: &Value) -> Value {
             }
         }
     }
-    json!({"n": n, "nontrivial": n, "hist": acc.hist, "bad": acc.bads})
+    let sample = match g {
+        "typed" => {
+            let genr = Gen { nops: case["nops"].as_u64().unwrap_or(10) as usize };
+            let idx = case["lo"].as_u64().unwrap_or(0);
+            let (cname, tpl, _, _) = CONTEXTS[(idx % CONTEXTS.len() as u64) as usize];
+            genr.exprs().get((idx / CONTEXTS.len() as u64) as usize).map(|(e, k)| json!({"group": g, "position": cname, "expression": e, "kind": format!("{:?}", k), "statement": tpl.replace('@', e)})).unwrap_or(Value::Null)
+        }
+        "calls" => json!({"group": g, "first_index": case["lo"]}),
+        _ => case["texts"].as_array().and_then(|a| a.first()).and_then(|t| t.as_str()).map(|t| json!({"group": g, "text": truncate_text(t, 300)})).unwrap_or(Value::Null),
+    };
+    json!({"n": n, "nontrivial": n, "hist": acc.hist, "bad": acc.bads, "sample": sample})
 }
 
 pub fn drive(tier: &str) -> i32 {
